@@ -341,9 +341,133 @@ print(json.dumps({{"changed": sorted(k for k in before if before[k] != after[k])
     rep.functions.update(f"measured.{h}" for h in HELPERS)
 
 
+DIRECT_CALL = {
+    "Dimension": ("", "measured.Dimension((0, 7, -5) + (0,) * (len(measured.Number.exponents) - 3))"),
+    "Prefix": ("", "measured.Prefix(10, 37)"),
+    "Unit": ("XA, XB = measured.Length.unit('c20-xa', 'c20-xa'), measured.Time.unit('c20-xb', 'c20-xb')\n"
+             "XD = measured.Length * measured.Time",
+             "measured.Unit(measured.IdentityPrefix, {XA: 1, XB: 1}, XD)"),
+    "Logarithm": ("XP = measured.Prefix(10, -5)", "measured.Logarithm(7.0, XP)"),
+    "LogarithmicUnit": ("XL, XQ = measured.Logarithm(11.0), 3 * measured.One", "measured.LogarithmicUnit(XL, XQ)"),
+}
+
+
+def publication_replay(cname: str, k: int, attrs: List[str]) -> str:
+    setup, expr = DIRECT_CALL[cname]
+    return families.REPLAY_IMPORTS + f"""import threading, os
+{setup}
+PKG = os.path.dirname(measured.__file__)
+K = {k}            # thread A is held when it arrives at its K-th source line inside the package
+ATTRS = {attrs!r}
+hold, resume = threading.Event(), threading.Event()
+count = [0]
+def local(frame, event, arg):
+    if event == 'line':
+        count[0] += 1
+        if count[0] == K:
+            hold.set(); resume.wait(30)
+    return local
+def tracer(frame, event, arg):
+    if event == 'call' and frame.f_code.co_filename.startswith(PKG):
+        return local
+    return None
+res = {{}}
+def use(o):
+    # what any caller does next with the object it was given: look at its attributes
+    return [getattr(o, a) for a in ATTRS] and repr(o)
+def run_a():
+    sys.settrace(tracer)
+    try:
+        o = {expr}
+    finally:
+        sys.settrace(None); hold.set()
+    try:
+        res['a'] = ('ok', use(o))
+    except Exception as e:
+        res['a'] = ('exc', type(e).__name__ + ': ' + str(e))
+def run_b():
+    try:
+        res['b'] = ('ok', use({expr}))
+    except Exception as e:
+        res['b'] = ('exc', type(e).__name__ + ': ' + str(e))
+ta = threading.Thread(target=run_a); ta.start()
+hold.wait(30)
+tb = threading.Thread(target=run_b); tb.start(); tb.join(30)
+resume.set(); ta.join(30)
+print('thread A (held at its line', K, '):', res.get('a'))
+print('thread B (ran meanwhile)      :', res.get('b'))
+if any(r is None or r[0] == 'exc' for r in (res.get('a'), res.get('b'))):
+    print('REPRODUCED: a thread evaluating the same expression was handed an object that is not built yet'); sys.exit(1)
+sys.exit(0)
+"""
+
+
+def publication_worker(cname: str) -> Dict[str, Any]:
+    families.boot()
+    import measured
+    import measured.systems  # noqa
+    from engine import initbmc
+
+    cls = getattr(measured, cname)
+    res = initbmc.analyse(cls, constructor_call(cname), (os.path.dirname(measured.__file__),))
+    res["class"] = cname
+    return res
+
+
+def publication_side_condition(rep: report.Report) -> None:
+    """What the intern table hands out is finished, or the receiving thread finishes it: no thread
+    returns from the constructor (or reads an attribute) while an attribute is unassigned
+    (engine/initbmc.py)."""
+    results = par.run("props.c20", "publication_worker", list(SETUP))
+    for cname, r in zip(SETUP, results):
+        key = ("publication", cname)
+        name = f"{cname}: no line-level schedule of a creating and a finding thread hands out an object with an attribute unassigned"
+        if r["result"] == "not-applicable":
+            rep.ob("unknown", name + f" ({r['why']})", key)
+            continue
+        rep.merge_stats(queries=2, solver_s=r["solver_s"])
+        rep.coverage.setdefault("publication", {})[cname] = {
+            "flags": r.get("flags"), "attributes": r.get("attrs"), "horizon": r.get("horizon"),
+            "verdict": r["result"], "why": r.get("why"), "program": r.get("program", [])[:4]}
+        if r["witness"] != "sat":
+            raise symnum.HarnessError(f"{cname}: no completing schedule in the initialisation model (vacuous)")
+        if r["result"] == "unsat":
+            rep.ob("unsat", name, key)
+            continue
+        if r["result"] != "sat":
+            rep.ob("unknown", name, key)
+            continue
+        # replay on real threads: the solver's preemption point first, then the other lines
+        first = (r.get("hold_a_before_event") or 0) + 1
+        n = r.get("events_undisturbed", 0) + 1
+        found = None
+        os.makedirs(report.REPLAY_DIR, exist_ok=True)
+        for k in [first] + [k for k in range(1, n + 1) if k != first]:
+            tmp = os.path.join(report.REPLAY_DIR, f"_c20_pub_probe_{cname}.py")
+            with open(tmp, "w") as f:
+                f.write("import sys\n" + publication_replay(cname, k, r["attrs"]))
+            okr, _ = report.run_replay(tmp)
+            os.remove(tmp)
+            if okr:
+                found = k
+                break
+        if found is None:
+            rep.ob("unknown", name + f" -- the model has a schedule ({r['trace'][:6]}); no one-preemption "
+                                    f"schedule on real threads shows it", key)
+            continue
+        rep.ob("sat", name, key)
+        rep.violation(f"C20:half-built:{cname}",
+                      f"{cname}: with the creating thread held at its line {found} inside the package, a thread "
+                      f"evaluating the same expression is handed the object before its attributes "
+                      f"{r['attrs']} are assigned (model schedule: {r['trace'][:8]})",
+                      publication_replay(cname, found, r["attrs"]))
+    rep.functions.update(f"measured.{c}.__init__" for c in SETUP)
+
+
 def main(tier: str, selftest_cases: int = 0) -> int:
     rep = report.Report(PID, tier, "model_checking")
     helper_side_condition(rep)
+    publication_side_condition(rep)
     threads = [2] if tier == "quick" else [2, 3]
     tasks = [(c, t) for c in SETUP for t in threads]
     results = par.run("props.c20", "worker", tasks)
